@@ -478,6 +478,13 @@ pub fn run(ctx: &Ctx) -> Result<Run, String> {
     // with different keys (for different RPs) on one thread
     let cst = super::inst::colliding_sweep("shared-state");
     stats.merge(cst);
+    // part D: a store and user-validation method with their own item type whose conversion can fail
+    for (order, locked, list) in super::vault::cases() {
+        stats.case(&(&order, locked, list), true, "vault");
+        for (k, d) in super::vault::eval(&order, locked, list) {
+            stats.finding(Finding::new(format!("vault/kind={k}"), d, json!({"vault": {"order": order, "locked": locked, "list": list}})));
+        }
+    }
     let n = cs.len() as u64 + csched;
     let mut run = Run::from_stats(
         "model_checking",
@@ -493,6 +500,10 @@ pub fn run(ctx: &Ctx) -> Result<Run, String> {
 pub fn replay(_ctx: &Ctx, case: &Value) -> Result<Vec<Finding>, String> {
     if let Some(fs) = super::inst::colliding_replay(case, "shared-state") {
         return Ok(fs);
+    }
+    if let Some(v) = case.get("vault") {
+        let order: Vec<u8> = serde_json::from_value(v["order"].clone()).unwrap_or_default();
+        return Ok(super::vault::eval(&order, v["locked"].as_u64().unwrap_or(0) as u8, v["list"].as_bool().unwrap_or(false)).into_iter().map(|(k, d)| Finding::new(format!("vault/kind={k}"), d, case.clone())).collect());
     }
     if let Some(cn) = case.get("contention") {
         let lock = cn["lock"].as_str().unwrap_or("mutex").to_string();
